@@ -6,6 +6,7 @@ advection = moving whole cell solutions, dispersion/diffusion = mixing with neig
 
 * inventory(rows, ...)        column inventory (moles of every element, charge) per shift
 * check_inventory             closed column: inventory is the same at every shift (relative 1e-9)
+* classify                    names the mechanism of an inventory mismatch for the fingerprint (never part of the verdict)
 * check_shift                 pure advection: cell i at shift s == upstream neighbour at shift s-1
 * check_convex                single diffusion coefficient: each molality within the hull of initial + boundary
 * check_balance               pure advection with solids: inventory(s) = inventory(s-1) + inflow - outflow
@@ -31,27 +32,69 @@ def solute_scale(inv, elements):
     return sum(abs(inv[e]) for e in elements if e not in ("H", "O"))
 
 
-def check_inventory(by_step, cells, elements, tag, charge="cb"):
-    """by_step: {step: {cell: row}}; compares every step > 0 with step 0."""
+def like_named(e, elements):
+    """Elements of the lattice whose symbol starts with the same letter as e (e included)."""
+    return [x for x in elements if x[0] == e[0]]
+
+
+def classify(e, elements, base, last, announced):
+    """Names the *mechanism* of an element-inventory mismatch from observables only (used in the fingerprint, never in
+    the verdict).  announced: {element: moles the engine itself says (WARNING) it added to the system in this run}.
+      engine-announced-addition    the change of the inventory over the whole run equals the amount the engine
+                                   announces to have added for this element (announced with 5 digits: relative 2e-4)
+      like-named-element-exchange  the element alone is not conserved, but the sum over the elements whose symbol starts
+                                   with the same letter is (corrected for announced additions) while at least two of them
+                                   are off: moles were moved from one element to another one
+      unannounced                  neither: mass appeared or vanished without the engine saying so
+    """
+    delta = last[e] - base[e]
+    a = announced.get(e, 0.0)
+    if a > 0 and abs(delta - a) <= 2e-4 * a + TOL * abs(base[e]):
+        return "engine-announced-addition"
+    grp = like_named(e, [x for x in elements if x not in ("H", "O")])
+    if len(grp) > 1:
+        gd = sum(last[x] - base[x] - announced.get(x, 0.0) for x in grp)
+        gs = sum(abs(base[x]) for x in grp)
+        off = [x for x in grp if abs(last[x] - base[x] - announced.get(x, 0.0)) > 2e-4 * announced.get(x, 0.0) + TOL * abs(base[x]) + ABS_FLOOR]
+        if len(off) >= 2 and abs(gd) <= 2e-4 * sum(announced.get(x, 0.0) for x in grp) + TOL * gs + ABS_FLOOR:
+            return "like-named-element-exchange"
+    return "unannounced"
+
+
+def check_inventory(by_step, cells, elements, tag, charge="cb", announced=None):
+    """by_step: {step: {cell: row}}; compares every step > 0 with step 0 (the only tolerance: relative 1e-9).
+    The fingerprint of an element mismatch carries the mechanism found by classify()."""
     problems = []
+    announced = announced or {}
     steps = sorted(by_step)
-    base = inventory(by_step[steps[0]], cells, list(elements) + [charge])
+    fields = list(elements) + [charge]
+    invs = dict((s, inventory(by_step[s], cells, fields)) for s in steps)
+    base = invs[steps[0]]
+    last = invs[steps[-1]]
     scale = solute_scale(base, elements)
     worst = 0.0
     seen = set()
-    for s in steps[1:]:
-        inv = inventory(by_step[s], cells, list(elements) + [charge])
+    for si, s in enumerate(steps):
+        if si == 0:
+            continue
+        inv = invs[s]
         for e in elements:
             d = abs(inv[e] - base[e])
             if base[e] != 0:
                 worst = max(worst, d / abs(base[e]))
-            kind = "water-element" if e in ("H", "O") else "element"
             # an element absent from the column (inventory exactly 0) has no relative scale of its own: use the dissolved total
-            if d > (TOL * abs(base[e]) if base[e] != 0 else TOL * scale) + ABS_FLOOR and kind not in seen:
+            if d > (TOL * abs(base[e]) if base[e] != 0 else TOL * scale) + ABS_FLOOR:
+                if e in ("H", "O"):
+                    kind = "water-element"
+                else:
+                    kind = "element " + classify(e, elements, base, last, announced)
+                if kind in seen:
+                    continue
                 seen.add(kind)
                 problems.append(("inventory %s %s" % (kind, tag),
-                                 "column inventory of %s changes from %.17g mol (shift %d) to %.17g mol (shift %d): relative %.3g > 1e-9" % (
-                                     e, base[e], steps[0], inv[e], s, d / abs(base[e]) if base[e] else float("inf"))))
+                                 "column inventory of %s changes from %.17g mol (shift %d) to %.17g mol (shift %d): relative %.3g > 1e-9%s" % (
+                                     e, base[e], steps[0], inv[e], s, d / abs(base[e]) if base[e] else float("inf"),
+                                     "; the engine announces to have added %.5g mol of it during the run" % announced[e] if announced.get(e) else "")))
         d = abs(inv[charge] - base[charge])
         if d > TOL * max(abs(base[charge]), scale) + ABS_FLOOR and "charge" not in seen:
             seen.add("charge")
